@@ -213,6 +213,7 @@ func (l *listGenerator) Decoder(g Generator, spec *compile.ListSpec) (string, er
 
 		<$sr := newVar "sr">
 		<$lh := newVar "lh">
+		<$n := newVar "n">
 		<$o := newVar "o">
 		<$v := newVar "v">
 		func <.Name>(<$sr> <$stream>.Reader) (<$listType>, error) {
@@ -230,7 +231,13 @@ func (l *listGenerator) Decoder(g Generator, spec *compile.ListSpec) (string, er
 				return nil, <$sr>.ReadListEnd()
 			}
 
-			<$o> := make(<$listType>, 0, <$lh>.Length)
+			// The length comes from the wire: cap the pre-allocation so that a
+			// few bytes cannot make us allocate an arbitrary amount of memory.
+			<$n> := <$lh>.Length
+			if <$n> > 65536 {
+				<$n> = 65536
+			}
+			<$o> := make(<$listType>, 0, <$n>)
 			for i := 0; i <lessthan> <$lh>.Length; i++ {
 				<$v>, err := <decode .Spec.ValueSpec $sr>
 				if err != nil {
